@@ -145,7 +145,14 @@ def join_wakeup(F):
             raise AnalysisBroken("thread::join: body of the exit-callback lambda not extracted")
         # the id is whatever the lambda hands to set_thread_state
         ids = [e["args"][0] for _, _, e in body.all_events() if e.get("k") == "call" and callee_short(e) == "set_thread_state" and e.get("args")]
-        return jn, body, (ids[0] if ids else None), cb[0]
+        jid = ids[0] if ids else None
+        if jid is not None and strip(jid).get("k") != "var":
+            # a named function object: the id is a member initialised from the (only) constructor argument
+            caps = [strip(c) for c in (lam[0].get("captures") or [])]
+            caps = [c for c in caps if isinstance(c, dict) and c.get("k") == "var"]
+            if len(caps) == 1:
+                jid = caps[0]
+        return jn, body, jid, cb[0]
     if fnref:
         body = [f for f in F.fns if f.qname == fnref[0].get("name") and f.parent == -1]
         if not body:
